@@ -108,9 +108,10 @@ class ScalarFormatter(object):
         """
         self._sigma = sigma
         self._n_significant_digits = n_significant_digits
-        _sig = int(-np.floor(np.log10(self._sigma))) + self._n_significant_digits - 1
-        # inner rounding needed for errors like 0.9999999 -> 1.0 (shift in decimal place)
-        self._sig = int(-np.floor(np.log10(np.around(self._sigma, _sig)))) + self._n_significant_digits - 1
+        # take the decimal exponent from the rounded number as it will be displayed
+        # needed for errors like 0.9999999 -> 1.0 (shift in decimal place)
+        _exponent = int(("%.{}e".format(self._n_significant_digits - 1) % self._sigma).split("e")[1])
+        self._sig = -_exponent + self._n_significant_digits - 1
 
     def __call__(self, x):
         """Format the input to the precision given by the uncertainty.
